@@ -22,9 +22,10 @@ fn spec_for(prop: &str, tier: Tier) -> Option<CheckSpec> {
     let (rule, assumptions, level): (String, Vec<String>, &'static str);
     match prop {
         "C18" => {
+            c18::set_thorough(tier == Tier::Thorough);
             for set in [true, false] {
                 let tag = if set { "USER-set" } else { "USER-unset" };
-                scenarios.push(with_user_env(Scenario::new(&format!("scalars/{}", tag), "13 URL shapes x every subset of the 12 scalar fields (every enum variant), each value distinct from the URL's", 0, 0, c18::sweep_scalars), set));
+                scenarios.push(with_user_env(Scenario::new(&format!("scalars/{}", tag), "13 (quick) / 20 (thorough) URL shapes x every subset of the 12 scalar fields (every enum variant; thorough: two values per textual field incl. empty and non-ASCII), each value distinct from the URL's", 0, 0, c18::sweep_scalars), set));
                 scenarios.push(with_user_env(Scenario::new(&format!("lists/{}", tag), "13 URL shapes x user/dbname in {unset, empty, ascii, non-ascii} x host/hosts/hostaddr/hostaddrs/port/ports each unset / empty / set", 0, 0, c18::sweep_lists), set));
             }
             scenarios.push(Scenario::new("sections", "pool section (absent / default / every max_size x timeouts x queue mode) x manager section (absent / each recycling method) x runtime present or absent through create_pool()", 0, 0, c18::sweep_sections));
